@@ -59,7 +59,7 @@ def handle (line : String) : String :=
     | .error _ => "bad-op"
     | .ok j => match getStruct j with
       | .error _ => "bad-op"
-      | .ok st => (clashesJson (clashes (classScope st))).compress
+      | .ok st => (clashesJson (clashes (classScope st) ++ clashes (referenceScope st))).compress
   | "NS" :: rest =>
     match Json.parse (" ".intercalate rest) with
     | .error _ => "bad-op"
